@@ -532,7 +532,8 @@ func CheckC12(run *evid.Run) {
 	// (3) placement in child processes: only blocks that did not panic in-process
 	var place []*hostile
 	for _, hb := range pool {
-		if hb.Outcome == "decode-error" && hb.Template != "manifest" {
+		// blocks that no codec decodes (they must be skipped); hostile manifests of any outcome (must not crash a load)
+		if hb.Outcome == "decode-error" || (hb.Template == "manifest" && hb.Outcome != "panic" && hb.Outcome != "") {
 			place = append(place, hb)
 		}
 	}
@@ -572,9 +573,6 @@ func c12PoolPath() string {
 func c12PlaceFile(place []*hostile) {
 	var items []placeItem
 	for _, hb := range place {
-		if hb.Template == "v0" {
-			continue
-		}
 		items = append(items, placeItem{hb.Template, hb.Edits, fmt.Sprintf("%x", hb.raw)})
 	}
 	b, _ := json.Marshal(items)
@@ -594,6 +592,26 @@ func c12PlaceCase(run *evid.Run, i int, j *Journal) {
 		}
 	}
 	rng := rand.New(rand.NewSource(run.Seed*279470273 + int64(i)))
+	var cborItems, v0Items, manItems []placeItem
+	for _, it := range c12Pool {
+		switch it.Template {
+		case "v0":
+			v0Items = append(v0Items, it)
+		case "manifest":
+			manItems = append(manItems, it)
+		default:
+			cborItems = append(cborItems, it)
+		}
+	}
+	if i%5 == 3 && len(v0Items) > 0 {
+		c12PlaceV0(run, i, rng, v0Items, j)
+		return
+	}
+	if i%5 == 4 && len(manItems) > 0 {
+		c12PlaceManifest(run, i, rng, manItems, j)
+		return
+	}
+	c12Pool := cborItems
 	h := hx.Gen(run.Seed, i, hx.GenOpts{MaxSteps: 30, Orders: []string{"hash"}, MaxReplicas: 4})
 	for k := range h.Steps {
 		if h.Steps[k].Op == "append" && rng.Intn(2) == 0 {
